@@ -73,7 +73,7 @@ Qed.
 Lemma line_crlf_app : forall line more, nolf line = true ->
   line_crlf (line ++ CRLF ++ more) = Some (Some line, more).
 Proof.
-  intros line more Hl. unfold line_crlf, CRLF.
+  intros line more Hl. rewrite line_crlf_unfold. unfold CRLF.
   change (line ++ [x0d; x0a] ++ more) with (line ++ [x0d] ++ x0a :: more).
   rewrite app_assoc. rewrite to_lf_app.
   - rewrite rev_app_distr. cbn [rev app]. rewrite rev_involutive. reflexivity.
@@ -81,7 +81,7 @@ Proof.
 Qed.
 
 Lemma line_crlf_none : forall l, nolf l = true -> line_crlf l = None.
-Proof. intros l Hl. unfold line_crlf. rewrite (to_lf_none l Hl). reflexivity. Qed.
+Proof. intros l Hl. rewrite line_crlf_unfold. rewrite (to_lf_none l Hl). reflexivity. Qed.
 
 (* ------------------------------------------------------------------ take_while *)
 Lemma take_while_app : forall sz more, forallb hexdig sz = true -> stop_byte more ->
